@@ -191,7 +191,32 @@ func absSubLists(l uePolicyContainer.UEPolicySectionManagementListContent) []uSu
 
 func c18MsgExec(c *core.Ctx, in c18Msg) {
 	c.Distinct(core.Hash64("msg", fmt.Sprint(in)), len(in.Subs)+len(in.SubRes) > 0)
-	fail := func(k, w string) { c.FailCase("roundtrip|"+in.Kind+"|"+k, w, "msg", in) }
+	c18MsgJudge(in, func(k, w string) { c.FailCase("roundtrip|"+in.Kind+"|"+k, w, "msg", in) })
+}
+
+type c18Hist struct {
+	Steps []c18Raw `json:"earlier_calls"`
+	Probe c18Msg   `json:"probe"`
+}
+
+// c18HistExec: the outcome of building, encoding and decoding a well-formed container does not depend on the calls
+// made before it — in particular not on decodes that stopped with an error part-way through a list.
+func c18HistExec(c *core.Ctx, in c18Hist) {
+	c.Distinct(core.Hash64("hist", fmt.Sprint(in)), true)
+	for _, st := range in.Steps {
+		c18RawCall(st)
+	}
+	guardReset()
+	first := "none"
+	if len(in.Steps) > 0 {
+		first = in.Steps[0].Parser
+	}
+	c18MsgJudge(in.Probe, func(k, w string) {
+		c.FailCase("history|after-"+first+"|"+in.Probe.Kind+"|"+k, "after the earlier calls: "+w, "hist", in)
+	})
+}
+
+func c18MsgJudge(in c18Msg, fail func(k, w string)) {
 	var enc []byte
 	var err error
 	var want []byte
@@ -521,8 +546,18 @@ func c18ReuseExec(c *core.Ctx, in c18Msg) {
 func c18RawExec(c *core.Ctx, in c18Raw) {
 	data := unhex(in.Hex)
 	c.Distinct(core.Hash64(in.Parser, data), len(data) >= 3)
-	pi := core.Try(func() {
-		cp := append([]byte{}, data...)
+	guardReset()
+	if pi := c18RawCall(in); pi != nil {
+		c.FailCase("parse|"+in.Parser+"|"+pi.Key(), fmt.Sprintf("%s on %x panics: %s", in.Parser, clip(data), pi.Msg), "raw", in)
+	} else if w := guardCheck(); w != "" {
+		c.FailCase("parse|"+in.Parser+"|writes-to-callers-buffer", fmt.Sprintf("%s on %x: %s", in.Parser, clip(data), w), "raw", in)
+	}
+}
+
+func c18RawCall(in c18Raw) *core.PanicInfo {
+	data := unhex(in.Hex)
+	return core.Try(func() {
+		cp := guardIn(data)
 		switch in.Parser {
 		case "UePolDeliverySerDecode":
 			uePolicyContainer.NewUePolDeliverySer().UePolDeliverySerDecode(cp)
@@ -543,9 +578,6 @@ func c18RawExec(c *core.Ctx, in c18Raw) {
 			l.UnmarshalBinary(cp)
 		}
 	})
-	if pi != nil {
-		c.FailCase("parse|"+in.Parser+"|"+pi.Key(), fmt.Sprintf("%s on %x panics: %s", in.Parser, clip(data), pi.Msg), "raw", in)
-	}
 }
 
 var c18Parsers = []string{"UePolDeliverySerDecode", "SectionManagementListContent", "SectionManagementResultContent", "SubListContents", "SectionContents", "SubResultContents"}
@@ -781,6 +813,51 @@ func c18Run(c *core.Ctx) {
 			}
 		}
 	}
+	// histories: every truncation and every 12-value replacement of the valid encodings through its parser (and a
+	// successful decode, and ordered pairs of truncations), then a probe of each kind
+	probes := []c18Msg{
+		{Kind: "command", PTI: 9, Subs: subs, Classmark: 1},
+		{Kind: "list", Subs: []uSub{{460, 11, []uIns{{Upsc: 7, Parts: []uPart{{1, 2}, {3, 300}}}}}}, Classmark: -1},
+		{Kind: "list", Subs: subs, Classmark: -1, ReuseBuilder: true},
+		{Kind: "reject", PTI: 3, SubRes: []uSubRes{{208, 93, []uRes{{1, 2}, {3, 4}}}, {310, 410, []uRes{{5, 6}}}}, Classmark: -1},
+		{Kind: "result-list", SubRes: []uSubRes{{999, 99, []uRes{{0xFFFF, 1}}}}, Classmark: -1},
+		{Kind: "complete", PTI: 200, Classmark: -1},
+	}
+	for _, name := range []string{"UePolDeliverySerDecode", "SectionManagementListContent", "SectionManagementResultContent", "reject"} {
+		data := valid[name]
+		parser := name
+		if name == "reject" {
+			parser = "UePolDeliverySerDecode"
+		}
+		for pos := 0; pos <= len(data); pos++ {
+			if !mine() {
+				continue
+			}
+			if !c.Begin("hist", parser, c18Raw{Parser: parser, Hex: hexs(data[:pos])}) {
+				continue
+			}
+			run := func(steps ...c18Raw) {
+				for _, pr := range probes {
+					n++
+					c18HistExec(c, c18Hist{Steps: steps, Probe: pr})
+				}
+			}
+			trunc := c18Raw{Parser: parser, Hex: hexs(data[:pos])}
+			run(trunc)
+			run(trunc, c18Raw{Parser: parser, Hex: hexs(data)})
+			for p2 := 0; p2 <= len(data); p2 += 3 {
+				run(trunc, c18Raw{Parser: parser, Hex: hexs(data[:p2])})
+			}
+			if pos == len(data) {
+				continue
+			}
+			for _, v := range alpha {
+				m := append([]byte{}, data...)
+				m[pos] = v
+				run(c18Raw{Parser: parser, Hex: hexs(m)})
+			}
+		}
+	}
 	c.Add("evaluations", n)
 	if c.Shard == 0 {
 		c.Sample("msg", 1, func() any {
@@ -794,6 +871,7 @@ func c18Run(c *core.Ctx) {
 func init() {
 	core.RegisterKind("C18", "msg", c18MsgExec)
 	core.RegisterKind("C18", "raw", c18RawExec)
+	core.RegisterKind("C18", "hist", c18HistExec)
 	core.RegisterKind("C18", "reuse", c18ReuseExec)
 	core.RegisterKind("C18", "plmn", c18PlmnExec)
 	core.RegisterProp(&core.PropSpec{
